@@ -14,6 +14,7 @@ from __future__ import annotations
 
 import collections
 import random
+import re
 
 from xdsl.context import Context
 from xdsl.dialects import arith
@@ -634,6 +635,7 @@ class PerturbedWorklist(Worklist):
         self._rng, self._p, self._case = rng, p, case
         self.pops: list[int] = []
         self.perturbed = 0
+        self.last_item = None
 
     def pop(self):
         if self._p and self._rng.random() < self._p and len(self._map) > 1:
@@ -645,6 +647,7 @@ class PerturbedWorklist(Worklist):
         else:
             item = super().pop()
         self.pops.append(self._case.number(item))
+        self.last_item = item
         return item
 
 
@@ -846,11 +849,33 @@ def run_case(seed, size, want_text=False):
     ret = None
     try:
         ret = walker.rewrite_module(module)
-    except Exception:
-        if not c.diverged:
-            raise
-        c.violate("driver-diverges", f"more than {c.cap} pattern invocations on a module of {n0} ops with a terminating "
-                  f"pattern set ({c.stats['mutating_invocations']} of them mutating)")
+    except Exception as e:
+        if c.diverged:
+            c.violate("driver-diverges", f"more than {c.cap} pattern invocations on a module of {n0} ops with a "
+                      f"terminating pattern set ({c.stats['mutating_invocations']} of them mutating)")
+        else:
+            # An exception that passed through the monitoring pattern / pattern library is a harness matter (or an API
+            # refusing a call of ours): crash the shard. One raised by the driver itself, outside any pattern, is an
+            # observation about the driver.
+            frames = []
+            tb = e.__traceback__
+            while tb is not None:
+                frames.append((tb.tb_frame.f_code.co_filename, tb.tb_frame.f_code.co_qualname))
+                tb = tb.tb_next
+            if any(fn == __file__ and qn != "run_case" for fn, qn in frames):
+                raise
+            c.diverged = True  # the walk did not complete: no return value / fixpoint to judge
+            last = wl.last_item
+            where = frames[-1][1] if frames else "?"
+            if last is not None and (c.removed.get(id(last)) is last or not attached_under(last, c.region)):
+                c.violate("driver-raised-on-stale-worklist-entry",
+                          f"the driver popped {describe(last)}, which was removed / is no longer attached below the region, "
+                          f"and raised {type(e).__name__} in {where} before invoking the pattern: {str(e)[:120]}",
+                          {"exception": type(e).__name__, "raised_in": where,
+                           "covered_by_removal_notification": c.removed.get(id(last)) is last})
+            else:
+                c.violate(f"driver-raised:{type(e).__name__}:{where}",
+                          f"rewrite_module raised outside any pattern: {type(e).__name__}: {str(e)[:160]}")
     c.monitoring = False
     c.current_pattern = "<applier>"
     canon_end = canon_ir(module)
@@ -876,7 +901,8 @@ def run_case(seed, size, want_text=False):
             check_tree([module])
             c.stats["irsan_walks"] += 1
         except Broken as e:
-            c.violate("irsan:" + str(e).split(":")[0][:60], "IR links / use lists broken after the walk: " + str(e))
+            c.violate("irsan:" + re.sub(r"\d+", "N", str(e).split(":")[0])[:60],
+                      "IR links / use lists broken after the walk: " + str(e))
         if cfg["apply_recursively"]:
             i0 = Snap(c.region)
             for o in [s.op for s in i0.ops.values()]:
